@@ -242,8 +242,8 @@ func TestVerifC03(t *testing.T) {
 		h := map[string]interface{}{}
 		for i, n := 0, r.Intn(4); i < n; i++ {
 			switch r.Intn(8) {
-			case 0:
-				h["kid"] = "forged"
+			case 0: // a kid header naming ANOTHER key of the store (or nothing the store knows)
+				h["kid"] = pick(append(kids, "forged"))
 			case 1:
 				h["typ"] = "JWT"
 			case 2:
